@@ -58,6 +58,14 @@ class SpannedString(str):
     spans: SpanDict = {}
 
 
+def _float_repr(val: float) -> str:
+    # repr() spells every NaN "nan", but the sign bit is part of the value on the wire
+    # (the default NaN of x86 has it set) and float("-nan") gives it back.
+    if val != val and math.copysign(1.0, val) < 0:
+        return "-nan"
+    return repr(val)
+
+
 class HumanMessageSerializer:
     @classmethod
     def from_human_string(cls, string, replacements=None, env=None, safe=True):
@@ -228,8 +236,12 @@ class HumanMessageSerializer:
         field_prefix = ""
         if isinstance(var_val, VerbatimHumanVal):
             var_data = var_val
-        elif isinstance(var_val, (uuid.UUID, datatypes.TupleCoord)):
+        elif isinstance(var_val, datatypes.TupleCoord):
+            var_data = "<" + ", ".join(_float_repr(x) for x in var_val) + ">"
+        elif isinstance(var_val, uuid.UUID):
             var_data = str(var_val)
+        elif isinstance(var_val, float):
+            var_data = _float_repr(var_val)
         elif isinstance(var_val, (str, bytes)) and not serializer:
             var_data = cls._multi_line_pformat(var_val)
         else:
